@@ -3,6 +3,7 @@ import PydapModel.Dmr
 import PydapModel.DmrSpec
 import PydapModel.DmrServer
 import PydapModel.Dap4Order
+import PydapModel.DmrFind
 import Driver.Dmr
 namespace Pydap.Driver
 open Pydap Sexp Pydap.Dmr
@@ -112,6 +113,17 @@ def handleDmrSpec : List Sexp → Option String
       | list [dn, sz] => do pure (← asStr? dn, ← asNat? sz)
       | _ => none
     pure (xnodeStr (renderServer (← asStr? name) dims (← sexpToSrv? 4096 kids)))
+  | [atom "dmr-find", x] => do
+    -- `dataset[<group path>/<name>]` for every parsed variable, in document order: the key of what is found
+    let x ← sexpToXNode? 64 x
+    match parseVars x, datasetTree x with
+    | .ok rs, .ok t =>
+      pure ("(ok" ++ String.join (rs.map fun r =>
+        " (" ++ strToHex r.key ++ " " ++ (match Forest.findVar (pathParts (quoteName r.key)) t with
+          | some f => strToHex f.key
+          | none => "none") ++ ")") ++ ")")
+    | .error e, _ => pure (dmrErr e)
+    | _, .error e => pure (dmrErr e)
   | [atom "dmr-order", x] => do
     let x ← sexpToXNode? 64 x
     match decodeOrder x with
